@@ -52,7 +52,7 @@ def completeLoop : Nat → C → List (Nat × List Name) → Nat → Nat → Exc
         match passLoop newPrev c [] (combosL (k + 1) (c.ofOrder (k - 1))) with
         | (.error e, c') => (.error e, c')
         | (.ok added, c') =>
-          completeLoop fuel c' (nssSet nss k (newK0 ++ added)) k (if added.isEmpty then maxk else k)
+          completeLoop fuel c' (nssSet nss k (newK0 ++ added)) k (if added.isEmpty then maxk else max maxk k)
     else (.ok (), c)
 
 def complete (c : C) (nss : List (Nat × List Name)) : Except Err Unit × C :=
